@@ -163,3 +163,75 @@ Theorem C03_heapify_ordered : forall (T : Type) (ltb : T -> T -> bool),
   h_heapify_post ltb h0 pr = Ok h' -> HOrd ltb h'.
 Proof. exact heapify_post_ord. Qed.
 Print Assumptions C03_heapify_ordered.
+
+(* ---- the generic algorithm (src/generic.rs), whole runs ----
+   Every merge of generic_with is a GLOBAL minimum of the criterion over all
+   pairs of live clusters.  Generic in the carrier and the criterion; needed of
+   the update formula: where the code does not re-check a changed cell against
+   the row's priority, the new value is not below the old ones. *)
+Require Import KV.Model.Generic KV.Proofs.GenericGreedy KV.Proofs.GenericGreedyInstances KV.Proofs.QInf.
+Theorem C03_generic_greedy : forall (T : Type) (K : kops T) (p : profile) (meth : method),
+  (forall a, k_ltb K a a = false) ->
+  (forall a b c, k_ltb K a b = true -> k_ltb K b c = true -> k_ltb K a c = true) ->
+  (forall a b c, k_ltb K a b = false -> k_ltb K b c = false -> k_ltb K a c = false) ->
+  (forall a, k_eqb K a a = true) ->
+  (forall va vb md sa sb sx,
+     k_ltb K va (k_max K) = true -> k_ltb K vb (k_max K) = true -> k_ltb K md (k_max K) = true ->
+     k_ltb K (k_upd K va vb md sa sb sx) (k_max K) = true) ->
+  (below_kind_of meth = BelowRename ->
+     forall va vb md sa sb sx, (uses_sizes_ab meth = true -> 0 < sa /\ 0 < sb) ->
+     k_ltb K (k_upd K va vb md sa sb sx) va = false \/ k_ltb K (k_upd K va vb md sa sb sx) vb = false) ->
+  (tracks_candidates meth = false ->
+     forall va vb md sa sb sx, k_ltb K (k_upd K va vb md sa sb sx) vb = false) ->
+  (forall u v, k_eqb K u v = true -> k_ltb K v u = false) ->
+  forall crit : mtree -> mtree -> T -> Prop,
+  (forall A B v, crit A B v -> crit B A v) ->
+  (forall X A B va vb md, crit X A va -> crit X B vb -> crit A B md ->
+     crit X (Node A B) (k_upd K va vb md (tsize A) (tsize B) (if uses_size_x meth then tsize X else 0))) ->
+  (uses_sizes_ab meth = false ->
+     forall va vb md sa sb sa' sb' sx, k_upd K va vb md sa sb sx = k_upd K va vb md sa' sb' sx) ->
+  forall s d m n s' d' m' M0,
+  Forall (fun v => k_ltb K v (k_max K) = true) (square_all K m) ->
+  generic_with K p meth s d m n = Ok (s', d', m') ->
+  prologue p (square_all K m) n = Ok M0 ->
+  (forall x y v, x <> y -> x < m_obs M0 -> y < m_obs M0 -> wcell M0 x y = Some v -> crit (Leaf x) (Leaf y) v) ->
+  exists raw,
+    gtrace K crit (seq 0 (m_obs M0)) Leaf raw
+    /\ length raw = m_obs M0 - 1
+    /\ Permutation (heights d') (map (k_rt K) (map (@s_dis T) raw))
+    /\ (requires_sorting meth = false -> heights d' = map (k_rt K) (map (@s_dis T) raw)).
+Proof. exact generic_greedy. Qed.
+Print Assumptions C03_generic_greedy.
+
+(* single / complete through `generic`, any carrier with a strict weak order *)
+Theorem C03_generic_selection_greedy : forall (T : Type) (F : fops T) (p : profile),
+  (forall a, f_ltb F a a = false) ->
+  (forall a b c, f_ltb F a b = true -> f_ltb F b c = true -> f_ltb F a c = true) ->
+  (forall a b c, f_ltb F a b = false -> f_ltb F b c = false -> f_ltb F a c = false) ->
+  (forall a, f_eqb F a a = true) ->
+  (forall u v, f_eqb F u v = true -> f_ltb F v u = false) ->
+  forall meth s d (m : list T) (n : N) s' d' m' M0,
+  meth = Single \/ meth = Complete ->
+  Forall (fun v => f_ltb F v (f_max F) = true) m ->
+  generic_with (kops_of F meth) p meth s d m n = Ok (s', d', m') ->
+  prologue p m n = Ok M0 ->
+  exists raw,
+    gtrace (kops_of F meth) (sel_crit F meth M0) (seq 0 (m_obs M0)) Leaf raw
+    /\ length raw = m_obs M0 - 1
+    /\ Permutation (heights d') (map (@s_dis T) raw).
+Proof. exact generic_selection_greedy. Qed.
+Print Assumptions C03_generic_selection_greedy.
+
+(* exact rationals with the infinite sentinel: single, complete, average,
+   weighted, centroid, median (what `linkage` runs generic for, and more) *)
+Theorem C03_generic_greedy_QI : forall (p : profile) (rt : Q -> Q) (meth : method), meth <> Ward ->
+  forall s d (mq : list Q) (n : N) s' d' m' M0,
+  generic_with (kops_of (QI rt) meth) p meth s d (map Some mq) n = Ok (s', d', m') ->
+  prologue p (square_all (kops_of (QI rt) meth) (map Some mq)) n = Ok M0 ->
+  exists raw,
+    gtrace (kops_of (QI rt) meth) (critI meth M0) (seq 0 (m_obs M0)) Leaf raw
+    /\ length raw = m_obs M0 - 1
+    /\ Permutation (heights d') (map (k_rt (kops_of (QI rt) meth)) (map (@s_dis qi) raw))
+    /\ (requires_sorting meth = false -> heights d' = map (k_rt (kops_of (QI rt) meth)) (map (@s_dis qi) raw)).
+Proof. exact generic_QI_greedy. Qed.
+Print Assumptions C03_generic_greedy_QI.
